@@ -1,7 +1,7 @@
 """C06 -- reading never panics, aborts or hangs, whatever bytes it is given"""
 import random
 from .. import core, run as R, synth
-from .readerlib import both_modes, fixtures
+from .readerlib import both_modes, fixtures, readsched_corr
 
 ID = 'C06'
 TARGETS = ['theories/Properties/C06.vo']
@@ -56,4 +56,11 @@ def run(ctx):
                                           'rerun': 'pvh %s <file: x <input_hex> %s ...>' % ('read' if cid[0] == 'm' else 'incr', f[1])}))
     corr.sample({'kind': muts[0][0], 'bytes': len(muts[0][1]), 'hex_prefix': muts[0][1][:48].hex()})
     corr.sample({'kind': muts[7][0], 'bytes': len(muts[7][1])})
+    # read errors injected at arbitrary read calls, with short reads and Interrupted retries, on well-formed and malformed streams:
+    # the model (Frag.run_frag) predicts outcome and consumed bytes; the oracle is no PANIC/ABORT/HANG
+    fs_streams = [synth.emit(synth.gen_wf(rng, nframes=rng.choice([0, 1, 3]))) for _ in range(60 if thorough else 15)] + [b for k, b in muts[:(200 if thorough else 40)] if b]
+    impl3, _ = readsched_corr(ctx, corr, rng, fs_streams, 3, faults=True)
+    for cid, res in impl3.items():
+        if any(l.startswith(('PANIC', 'ABORT', 'HANG')) for l in (res or ['ABORT'])):
+            corr.oracle_failures.append((cid, 'reader %s under an injected stream fault' % (res or ['ABORT'])[0], {'mode': 'readsched', 'case': cid}))
     return corr
